@@ -43,6 +43,36 @@ FMTSTR_FIELDS = {"chunks", "_unicode", "_len", "_s", "_width"}
 CHUNK_FIELDS = {"_s", "_atts"}
 TRACKED = FMTSTR_FIELDS | CHUNK_FIELDS
 MEMO = {"_unicode": "__str__", "_len": "__len__", "_s": "s", "_width": "width"}
+IMMUTABLE = {"FmtStr": {"chunks"}, "Chunk": {"_s", "_atts", "s", "atts"}}
+BASE_FIELDS = {"FmtStr": FMTSTR_FIELDS, "Chunk": CHUNK_FIELDS}
+
+
+def memo_table(src, fmt_mod):
+    """[(class, slot, accessor)]: the four FmtStr memo slots, plus every other tracked name a class uses as a memo slot:
+    `self.X = None` in its __init__ and stores to self.X in exactly one other method of the class.  A discovered slot is
+    accepted by I1 and is then held to the same I3 discipline as the built-in ones."""
+    table = [("FmtStr", slot, acc) for slot, acc in sorted(MEMO.items())]
+    for cname in ("FmtStr", "Chunk"):
+        try:
+            methods = src.methods(fmt_mod, cname)
+        except Exception:
+            continue
+        init = methods.get("__init__")
+        if init is None:
+            continue
+        for slot in sorted(TRACKED - BASE_FIELDS[cname]):
+            inits = [n for n in init.own_nodes() if isinstance(n, (ast.Assign, ast.AnnAssign)) and
+                     any(is_self_attr(t, slot) for t in _store_targets(n))]
+            if not (len(inits) == 1 and isinstance(inits[0].value, ast.Constant) and inits[0].value.value is None):
+                continue
+            writers = sorted(name for name, f in methods.items() if name != "__init__" and any(
+                is_self_attr(a, slot) and isinstance(a.ctx, (ast.Store, ast.Del))
+                for n in f.own_nodes() for t in _store_targets(n) for a in ast.walk(t)))
+            if len(writers) == 1:
+                table.append((cname, slot, writers[0]))
+    return table
+
+
 LIST_MUT = {"append", "extend", "insert", "pop", "remove", "sort", "reverse", "clear", "__setitem__", "__delitem__",
             "__iadd__", "__imul__"}
 DICT_MUT = {"__setitem__", "__delitem__", "update", "pop", "popitem", "clear", "setdefault", "__ior__"}
@@ -100,6 +130,8 @@ def _cache_carried_to_same_runs(f, node, a):
 # ---------------------------------------------------------------------------- I1
 def rule_i1(src, rep, fmt_mod, counts):
     n = 0
+    table = memo_table(src, fmt_mod)
+    memo_acc = {(c, slot): acc for c, slot, acc in table}
     for f in src.all_funcs():
         cname = owner_class_name(f)
         direct_method = f.cls is not None and f.outer is None
@@ -109,10 +141,10 @@ def rule_i1(src, rep, fmt_mod, counts):
                     if isinstance(a, ast.Attribute) and isinstance(a.ctx, (ast.Store, ast.Del)) and a.attr in TRACKED:
                         n += 1
                         recv_self = isinstance(a.value, ast.Name) and a.value.id == "self" and direct_method
-                        in_init = f.name == "__init__" and recv_self and (
-                            (cname == "FmtStr" and a.attr in FMTSTR_FIELDS) or (cname == "Chunk" and a.attr in CHUNK_FIELDS))
-                        is_memo = recv_self and cname == "FmtStr" and MEMO.get(a.attr) == f.name and \
-                            not isinstance(node, ast.Delete)
+                        in_init = f.name == "__init__" and recv_self and cname in BASE_FIELDS and (
+                            a.attr in BASE_FIELDS[cname] or (cname, a.attr) in memo_acc)
+                        is_memo = recv_self and memo_acc.get((cname, a.attr)) == f.name and \
+                            not isinstance(node, ast.Delete) and f.module.name == fmt_mod
                         foreign_class = recv_self and cname not in ("FmtStr", "Chunk") and f.module.name != fmt_mod
                         ok = in_init or is_memo or foreign_class or _cache_carried_to_same_runs(f, node, a)
                         rep.ob("I1-field-store", f.where(node), f.scope, unparse(node).split("\n")[0], ok,
@@ -276,8 +308,10 @@ def _slot_targets(st, slot):
 def rule_i3(src, rep, fmt_mod, counts):
     from ..cfg import enumerate_paths
     n = 0
-    for slot, acc in sorted(MEMO.items()):
-        f = src.func(fmt_mod, "FmtStr." + acc)
+    table = memo_table(src, fmt_mod)
+    for cname, slot, acc in table:
+        f = src.func(fmt_mod, cname + "." + acc)
+        sources = IMMUTABLE[cname]
         n += 1
         # stores to tracked fields other than the own slot
         other = []
@@ -296,9 +330,21 @@ def rule_i3(src, rep, fmt_mod, counts):
                "self.%s is stored by plain assignment outside loops" % slot, not in_loop,
                "the slot is filled incrementally (%s): a partially filled slot survives an exception raised half way and is "
                "then returned as if complete" % [unparse(x).split("\n")[0] for x in in_loop])
-        paths = [p for p in enumerate_paths(f.node.body) if p.feasible() and p.term == "return"]
+        every = [p for p in enumerate_paths(f.node.body) if p.feasible()]
+        paths = [p for p in every if p.term == "return"]
         if not paths:
-            raise AnalysisError("FmtStr.%s has no returning path" % acc)
+            raise AnalysisError("%s.%s has no returning path" % (cname, acc))
+        # a path that fills the slot and then raises leaves the slot filled although the accessor failed: the next call
+        # returns what the first one refused to return
+        for p in every:
+            if p.term != "raise":
+                continue
+            stored = [ev[1] for ev in p.events if ev[0] == "stmt" and isinstance(ev[1], (ast.Assign, ast.AnnAssign, ast.AugAssign))
+                      and any(is_self_attr(t, slot) for t in _store_targets(ev[1]))]
+            if stored:
+                rep.ob("I3-memo-store-then-return", f.where(stored[0]), f.scope, unparse(stored[0]).split("\n")[0], False,
+                       "a path stores self.%s and then raises: the slot stays filled although the accessor failed, so the "
+                       "same value answers differently the second time it is asked" % slot)
         for p in paths:
             alias = {}          # local name -> 'slot' | 'value'
             alias_expr = {}
@@ -396,8 +442,9 @@ def rule_i3(src, rep, fmt_mod, counts):
                             work.extend(x.id for x in ast.walk(lp.target) if isinstance(x, ast.Name))
                             lp = f.module.enclosing(lp, (ast.For,))
             rep.ob("I3-memo-value-from-chunks", f.where(store), f.scope, "self.%s = %s" % (slot, unparse(src_expr)[:80]),
-                   reads <= {"chunks"} and bool(reads),
-                   "the memoised value must be computed from self.chunks only; it reads self.%s" % sorted(reads))
+                   reads <= sources and bool(reads),
+                   "the memoised value must be computed from the immutable fields of %s (%s) only; it reads self.%s" %
+                   (cname, sorted(sources), sorted(reads)))
             bad_after = [x for x in after_store if not isinstance(x, (ast.Assign, ast.AnnAssign)) or
                          any(isinstance(c, ast.Call) for c in ast.walk(x))]
             rep.ob("I3-memo-store-then-return", f.where(store), f.scope, unparse(store).split("\n")[0], not bad_after,
@@ -408,15 +455,16 @@ def rule_i3(src, rep, fmt_mod, counts):
                    "returns `%s`, not the value just stored in self.%s" % (unparse(rv), slot))
     counts["memo_accessors"] = n
     # the slots are initialised to None in __init__
-    init = src.func(fmt_mod, "FmtStr.__init__")
-    for slot in sorted(MEMO):
+    for cname, slot, acc in table:
+        init = src.func(fmt_mod, cname + ".__init__")
         inits = [n for n in init.own_nodes() if isinstance(n, (ast.Assign, ast.AnnAssign)) and
                  any(is_self_attr(t, slot) for t in _store_targets(n))]
         ok = len(inits) == 1 and isinstance(inits[0].value, ast.Constant) and inits[0].value.value is None
         rep.ob("I3-memo-init-none", init.where(inits[0]) if inits else init.where(), init.scope,
                unparse(inits[0]) if inits else "self.%s" % slot, ok,
-               "memo slot self.%s must start empty (None) in FmtStr.__init__" % slot)
+               "memo slot self.%s must start empty (None) in %s.__init__" % (slot, cname))
     # FmtStr.__init__ copies the components
+    init = src.func(fmt_mod, "FmtStr.__init__")
     cs = [n for n in init.own_nodes() if isinstance(n, (ast.Assign, ast.AnnAssign)) and
           any(is_self_attr(t, "chunks") for t in _store_targets(n))]
     vararg = init.node.args.vararg.arg if init.node.args.vararg else None
